@@ -653,6 +653,38 @@ func (x *FnExec) regionShape(v Val, t types.Type, r *ownedRegion) {
 	}
 }
 
+// existsBelow: slices and pointers in a value refer to whole objects below the frontier `end`
+// (no provenance is recorded).
+func (x *FnExec) existsBelow(v Val, t types.Type, end Term) []Term {
+	var out []Term
+	var walk func(v Val, t types.Type)
+	walk = func(v Val, t types.Type) {
+		if isOpaque(t) {
+			return
+		}
+		switch u := t.Underlying().(type) {
+		case *types.Slice:
+			if v.IsComp() && len(v.F) == 3 {
+				sz := x.mem.Size(u.Elem())
+				p, c := v.F[0].T, v.F[2].T
+				out = append(out, Or(Eq(p, "0"), Le(Add(p, Mul(c, Lit(int64(sz)))), end)))
+			}
+		case *types.Pointer:
+			if !v.IsComp() {
+				out = append(out, Or(Eq(v.T, "0"), Le(Add(v.T, Lit(int64(x.mem.Size(u.Elem())))), end)))
+			}
+		case *types.Struct:
+			if v.IsComp() && len(v.F) == u.NumFields() {
+				for i := 0; i < u.NumFields(); i++ {
+					walk(v.F[i], u.Field(i).Type())
+				}
+			}
+		}
+	}
+	walk(v, t)
+	return out
+}
+
 func (x *FnExec) regionShapeTerms(v Val, t types.Type, r *ownedRegion) []Term {
 	var out []Term
 	var walk func(v Val, t types.Type)
@@ -1193,12 +1225,20 @@ func (x *FnExec) findLoops() {
 	})
 	for i, h := range hs {
 		x.loopOrd[h.b] = i + 1
+		if os.Getenv("GOVC_DEBUG") != "" {
+			fmt.Fprintf(os.Stderr, "loop %d of %s: header block %d at %v\n", i+1, x.fnName(), h.b.Index, x.fn.Prog.Fset.Position(h.pos))
+		}
 	}
 }
 
 func blockPos(b *ssa.BasicBlock) token.Pos {
 	best := token.NoPos
 	for _, in := range b.Instrs {
+		if _, isPhi := in.(*ssa.Phi); isPhi {
+			// a phi carries the position of the variable's declaration, which may precede an
+			// earlier loop (named results): loops are numbered by their own statements
+			continue
+		}
 		if p := in.Pos(); p != token.NoPos && (best == token.NoPos || p < best) {
 			best = p
 		}
@@ -1207,6 +1247,9 @@ func blockPos(b *ssa.BasicBlock) token.Pos {
 		// fall back to successors' positions
 		for _, s := range b.Succs {
 			for _, in := range s.Instrs {
+				if _, isPhi := in.(*ssa.Phi); isPhi {
+					continue
+				}
 				if p := in.Pos(); p != token.NoPos && (best == token.NoPos || p < best) {
 					best = p
 				}
@@ -1490,6 +1533,22 @@ func (x *FnExec) loopEnv(b *ssa.BasicBlock, st *State, phiVal func(*ssa.Phi) Val
 		// entry values of parameters: name0
 		if phi, ok := phis[name]; ok {
 			return TVal{phiVal(phi), phi.Type()}, true
+		}
+		// name_pre: the value of a loop-carried variable on entry to the loop
+		if strings.HasSuffix(name, "_pre") {
+			if phi, ok := phis[strings.TrimSuffix(name, "_pre")]; ok {
+				body := x.loopBlocks(b)
+				for i, pred := range b.Preds {
+					if !body[pred] {
+						if v, ok := x.vals[phi.Edges[i]]; ok {
+							return TVal{v, phi.Type()}, true
+						}
+						if c, ok := phi.Edges[i].(*ssa.Const); ok {
+							return TVal{x.constVal(c), phi.Type()}, true
+						}
+					}
+				}
+			}
 		}
 		if strings.HasSuffix(name, "0") {
 			base := strings.TrimSuffix(name, "0")
